@@ -40,9 +40,13 @@ Definition close (tol a b : Q) : bool := Qle_bool (Qabs (a - b)) (tol * Qabs b).
 Definition tol_of (k : kind) : Q :=
   match k with KInt => 0 | KFloat => 1 # 1000000000 | KDec => 1 # 1000000000 end.
 
-Definition matches (o : outcome) (x : expected) : bool :=
+(* ref: an absolute reference added to |model value| in the tolerance (the left operand's magnitude for
+   + and -, where the result may cancel to zero and only rounding noise of the operands' size is left) *)
+Definition close_ref (tol ref a b : Q) : bool := Qle_bool (Qabs (a - b)) (tol * (Qabs b + ref)).
+
+Definition matches_ref (ref : Q) (o : outcome) (x : expected) : bool :=
   match o, x with
-  | Val (VQty q), XQty k m u => kind_eqb (qk q) k && close (tol_of k) m (qm q) && bool_decide (qu q = u)
+  | Val (VQty q), XQty k m u => kind_eqb (qk q) k && close_ref (tol_of k) ref m (qm q) && bool_decide (qu q = u)
   | Val (VQty q), XQtyNoMag k u =>
       match k with Some k => kind_eqb (qk q) k | None => true end && bool_decide (qu q = u)
   | Val (VUnit u), XUnit v => bool_decide (u = v)
@@ -50,6 +54,13 @@ Definition matches (o : outcome) (x : expected) : bool :=
   | Bool a, XBool b => Bool.eqb a b
   | Err e, XErr e' => err_eqb e e'
   | _, _ => false
+  end.
+Definition matches := matches_ref 0.
+
+Definition addsub_ref (op : bop) (l : value) : Q :=
+  match op, l with
+  | OpAdd, VQty q | OpSub, VQty q => Qabs (qm q)
+  | _, _ => 0
   end.
 
 Inductive qcase :=
@@ -66,7 +77,7 @@ Definition q_root_shape (q : qty) (n : Z) : outcome :=
 
 Definition run_case (t : convtbl) (c : qcase) : bool :=
   match c with
-  | CBin op l r x => matches (binop (conv_tbl t) op l r) x
+  | CBin op l r x => matches_ref (addsub_ref op l) (binop (conv_tbl t) op l r) x
   | CCmp op l r x => matches (compare (conv_tbl t) op l r) x
   | CPow q n x => matches (q_pow q n) x
   | CRoot q n x => matches (q_root_shape q n) x
